@@ -5,6 +5,7 @@ set -u
 P="$1"; shift
 if [ -n "$(git -C /repo status --porcelain)" ]; then echo "refusing: /repo has uncommitted changes" >&2; exit 3; fi
 git -C /repo apply "$P" || { echo "patch does not apply" >&2; exit 3; }
-"$@"; rc=$?
+# evidence and replays of runs on a patched tree never land in /verif/evidence
+VERIF_EVIDENCE_DIR="${VERIF_EVIDENCE_DIR:-/tmp/govc-mutant-out}" "$@"; rc=$?
 git -C /repo apply -R "$P" || git -C /repo checkout -- .
 exit $rc
